@@ -3032,3 +3032,1012 @@ Example rfc3339_samples :
   parse_rfc3339 (bs "0000-01-01T00:00:00Z") = Some (-62167219200).
 Proof. vm_compute. repeat split. Qed.
 End Dates.
+
+(* ================================================================== *)
+(* 5. C15: the printed form parses back                                 *)
+(* ================================================================== *)
+(* concrete syntax as a list of items: tokens and single whitespace bytes *)
+Inductive item := IT (t : token) | IW (c : N).
+
+Fixpoint flat_i (l : list item) : bytes :=
+  match l with
+  | [] => []
+  | IT t :: l' => src t ++ flat_i l'
+  | IW c :: l' => c :: flat_i l'
+  end.
+Fixpoint toks_i (l : list item) : list token :=
+  match l with
+  | [] => []
+  | IT t :: l' => t :: toks_i l'
+  | IW _ :: l' => toks_i l'
+  end.
+Fixpoint lexable_i (l : list item) : bool :=
+  match l with
+  | [] => true
+  | IT t :: l' => tok_ok t (follow (flat_i l')) && forallb in_domain (src t) && lexable_i l'
+  | IW c :: l' => ((c =? 32) || (c =? 10)) && hd_nonws (flat_i l') && lexable_i l'
+  end.
+
+Lemma lex_loop_items : forall l fuel,
+  lexable_i l = true -> (List.length (flat_i l) <= fuel)%nat -> lex_loop fuel (flat_i l) = Ok (toks_i l).
+Proof.
+  induction l as [|[t|c] l IH]; intros fuel Hl Hf.
+  - destruct fuel; reflexivity.
+  - cbn [lexable_i] in Hl. apply andb_true_iff in Hl as [Hl Hrest]. apply andb_true_iff in Hl as [Htok Hdom].
+    cbn [flat_i toks_i] in *.
+    pose proof (next_token_ok t (flat_i l) Htok) as Hnt.
+    pose proof (tok_ok_src_nonempty t _ Htok) as Hne.
+    rewrite app_length in Hf.
+    destruct (src t ++ flat_i l) as [|c s] eqn:E.
+    { destruct (src t); [congruence|discriminate]. }
+    destruct fuel as [|f]; [destruct (src t); [congruence|cbn in Hf; lia]|].
+    cbn [lex_loop]. rewrite Hnt, (tok_ok_not_elided t _ Htok), (tok_ok_no_backslash t _ Htok).
+    rewrite IH; [reflexivity|exact Hrest|]. destruct (src t); [congruence|]. cbn [List.length] in Hf. lia.
+  - cbn [lexable_i] in Hl. apply andb_true_iff in Hl as [Hl Hrest]. apply andb_true_iff in Hl as [Hc Hnw].
+    cbn [flat_i toks_i List.length] in *. destruct fuel as [|f]; [lia|].
+    apply orb_true_iff in Hc as [Hc|Hc]; apply N.eqb_eq in Hc; subst c; cbn [lex_loop].
+    + rewrite (nt_space _ Hnw). cbn [elided tk]. apply IH; [exact Hrest|lia].
+    + rewrite (nt_newline _ Hnw). cbn [elided tk]. apply IH; [exact Hrest|lia].
+Qed.
+
+Lemma lexable_i_domain l : lexable_i l = true -> forallb in_domain (flat_i l) = true.
+Proof.
+  induction l as [|[t|c] l IH]; intros Hl; [reflexivity| |]; cbn [lexable_i] in Hl.
+  - apply andb_true_iff in Hl as [Hl Hrest]. apply andb_true_iff in Hl as [Htok Hdom].
+    cbn [flat_i]. rewrite forallb_app, Hdom, (IH Hrest). reflexivity.
+  - apply andb_true_iff in Hl as [Hl Hrest]. apply andb_true_iff in Hl as [Hc Hnw].
+    cbn [flat_i forallb]. rewrite (IH Hrest).
+    apply orb_true_iff in Hc as [Hc|Hc]; apply N.eqb_eq in Hc; subst c; reflexivity.
+Qed.
+
+Theorem lex_items : forall l, lexable_i l = true -> lex (flat_i l) = Ok (toks_i l).
+Proof.
+  intros l Hl. unfold lex. rewrite (lexable_i_domain l Hl). apply lex_loop_items; [exact Hl|apply le_n].
+Qed.
+
+Lemma flat_i_app a b : flat_i (a ++ b) = flat_i a ++ flat_i b.
+Proof. induction a as [|[t|c] a IH]; cbn [app flat_i]; [reflexivity| |]; rewrite IH; [apply app_assoc|reflexivity]. Qed.
+Lemma toks_i_app a b : toks_i (a ++ b) = toks_i a ++ toks_i b.
+Proof. induction a as [|[t|c] a IH]; cbn [app toks_i]; [reflexivity| |]; rewrite IH; reflexivity. Qed.
+
+(* ---------- the printers' layout of a grammar tree ---------- *)
+Notation sp := (IW 32).
+
+Definition term_tok (t : gterm) : token :=
+  match t with
+  | GParam n => Tok KParameter (123 :: n ++ [125])
+  | GVar n => Tok KVariable (36 :: n)
+  | GBytes h => Tok KHex (lit_hex ++ h)
+  | GStr s => Tok KString s
+  | GDate s => Tok KDateTime s
+  | GInt z => Tok KInt (dec_of_Z z)
+  | GBool b => Tok KBool (if b then L_true else L_false)
+  | GSet _ _ => t_lbrack
+  end.
+
+Fixpoint lay_term (t : gterm) : list item :=
+  match t with
+  | GSet x xs => IT t_lbrack :: lay_term x ++ lay_commas xs ++ [IT t_rbrack]
+  | _ => [IT (term_tok t)]
+  end
+with lay_commas (xs : gterms) : list item :=
+  match xs with
+  | GNil => []
+  | GCons y ys => IT t_comma :: sp :: lay_term y ++ lay_commas ys
+  end.
+
+Lemma up_lay_term_all :
+  (forall t k, up_term t k = toks_i (lay_term t) ++ k) /\
+  (forall xs k, up_commas xs k = toks_i (lay_commas xs) ++ k).
+Proof.
+  apply gterm_mutind; try (intros; reflexivity).
+  - intros x IHx xs IHxs k. cbn [up_term lay_term toks_i]. rewrite IHx, IHxs, !toks_i_app.
+    cbn [toks_i app]. cbn [toks_i app]. repeat rewrite <- app_assoc. cbn [app]. reflexivity.
+  - intros y IHy ys IHys k. cbn [up_commas lay_commas toks_i]. rewrite IHy, IHys, toks_i_app.
+    cbn [toks_i app]. repeat rewrite <- app_assoc. cbn [app]. reflexivity.
+Qed.
+
+Fixpoint lay_expression (e : Expression) : list item :=
+  match e with MkExpression l r => lay_e1 l ++ lay_o1 r end
+with lay_o1 (r : OpExpr1s) : list item :=
+  match r with O1Nil => [] | O1Cons e r' => sp :: IT t_oror :: sp :: lay_e1 e ++ lay_o1 r' end
+with lay_e1 (e : Expr1) : list item :=
+  match e with MkExpr1 l r => lay_e2 l ++ lay_o2 r end
+with lay_o2 (r : OpExpr2s) : list item :=
+  match r with O2Nil => [] | O2Cons e r' => sp :: IT t_andand :: sp :: lay_e2 e ++ lay_o2 r' end
+with lay_e2 (e : Expr2) : list item :=
+  match e with MkExpr2 l r => lay_e3 l ++ lay_o3 r end
+with lay_o3 (r : OpExpr3o) : list item :=
+  match r with O3None => [] | O3Some o e => sp :: IT (t_cmp o) :: sp :: lay_e3 e end
+with lay_e3 (e : Expr3) : list item :=
+  match e with MkExpr3 l r => lay_e4 l ++ lay_o4 r end
+with lay_o4 (r : OpExpr4s) : list item :=
+  match r with O4Nil => [] | O4Cons o e r' => sp :: IT (t_add o) :: sp :: lay_e4 e ++ lay_o4 r' end
+with lay_e4 (e : Expr4) : list item :=
+  match e with MkExpr4 l r => lay_e5 l ++ lay_o5 r end
+with lay_o5 (r : OpExpr5s) : list item :=
+  match r with O5Nil => [] | O5Cons o e r' => sp :: IT (t_mul o) :: sp :: lay_e5 e ++ lay_o5 r' end
+with lay_e5 (e : Expr5) : list item :=
+  match e with MkExpr5 neg e6 => (if neg then [IT t_bang] else []) ++ lay_e6 e6 end
+with lay_e6 (e : Expr6) : list item :=
+  match e with MkExpr6 l r => lay_et l ++ lay_o7 r end
+with lay_o7 (r : OpExpr7s) : list item :=
+  match r with
+  | O7Nil => []
+  | O7Cons m a r' => IT t_dot :: IT (t_method m) :: IT t_lparen :: lay_oe a ++ IT t_rparen :: lay_o7 r'
+  end
+with lay_oe (a : OptExpression) : list item :=
+  match a with ENone => [] | ESome e => lay_expression e end
+with lay_et (t : ExprTerm) : list item :=
+  match t with
+  | ETTerm t => lay_term t
+  | ETParen a => IT t_lparen :: lay_oe a ++ [IT t_rparen]
+  end.
+
+Lemma up_lay_expr_all :
+  (forall e k, up_expression e k = toks_i (lay_expression e) ++ k) /\
+  (forall r k, up_o1 r k = toks_i (lay_o1 r) ++ k) /\
+  (forall e k, up_e1 e k = toks_i (lay_e1 e) ++ k) /\
+  (forall r k, up_o2 r k = toks_i (lay_o2 r) ++ k) /\
+  (forall e k, up_e2 e k = toks_i (lay_e2 e) ++ k) /\
+  (forall r k, up_o3 r k = toks_i (lay_o3 r) ++ k) /\
+  (forall e k, up_e3 e k = toks_i (lay_e3 e) ++ k) /\
+  (forall r k, up_o4 r k = toks_i (lay_o4 r) ++ k) /\
+  (forall e k, up_e4 e k = toks_i (lay_e4 e) ++ k) /\
+  (forall r k, up_o5 r k = toks_i (lay_o5 r) ++ k) /\
+  (forall e k, up_e5 e k = toks_i (lay_e5 e) ++ k) /\
+  (forall e k, up_e6 e k = toks_i (lay_e6 e) ++ k) /\
+  (forall r k, up_o7 r k = toks_i (lay_o7 r) ++ k) /\
+  (forall a k, up_oe a k = toks_i (lay_oe a) ++ k) /\
+  (forall t k, up_et t k = toks_i (lay_et t) ++ k).
+Proof.
+  apply expr_mutind.
+  - intros l L r R k. cbn [up_expression lay_expression]. rewrite L, R, toks_i_app. cbn [toks_i app]. repeat rewrite <- app_assoc. cbn [app]. reflexivity.
+  - reflexivity.
+  - intros e E r R k. cbn [up_o1 lay_o1 toks_i]. rewrite E, R, toks_i_app. cbn [toks_i app]. repeat rewrite <- app_assoc. cbn [app]. reflexivity.
+  - intros l L r R k. cbn [up_e1 lay_e1]. rewrite L, R, toks_i_app. cbn [toks_i app]. repeat rewrite <- app_assoc. cbn [app]. reflexivity.
+  - reflexivity.
+  - intros e E r R k. cbn [up_o2 lay_o2 toks_i]. rewrite E, R, toks_i_app. cbn [toks_i app]. repeat rewrite <- app_assoc. cbn [app]. reflexivity.
+  - intros l L r R k. cbn [up_e2 lay_e2]. rewrite L, R, toks_i_app. cbn [toks_i app]. repeat rewrite <- app_assoc. cbn [app]. reflexivity.
+  - reflexivity.
+  - intros o e E k. cbn [up_o3 lay_o3 toks_i]. rewrite E. reflexivity.
+  - intros l L r R k. cbn [up_e3 lay_e3]. rewrite L, R, toks_i_app. cbn [toks_i app]. repeat rewrite <- app_assoc. cbn [app]. reflexivity.
+  - reflexivity.
+  - intros o e E r R k. cbn [up_o4 lay_o4 toks_i]. rewrite E, R, toks_i_app. cbn [toks_i app]. repeat rewrite <- app_assoc. cbn [app]. reflexivity.
+  - intros l L r R k. cbn [up_e4 lay_e4]. rewrite L, R, toks_i_app. cbn [toks_i app]. repeat rewrite <- app_assoc. cbn [app]. reflexivity.
+  - reflexivity.
+  - intros o e E r R k. cbn [up_o5 lay_o5 toks_i]. rewrite E, R, toks_i_app. cbn [toks_i app]. repeat rewrite <- app_assoc. cbn [app]. reflexivity.
+  - intros neg e E k. cbn [up_e5 lay_e5]. destruct neg; cbn [app toks_i]; rewrite E; reflexivity.
+  - intros l L r R k. cbn [up_e6 lay_e6]. rewrite L, R, toks_i_app. cbn [toks_i app]. repeat rewrite <- app_assoc. cbn [app]. reflexivity.
+  - reflexivity.
+  - intros m a A r R k. cbn [up_o7 lay_o7 toks_i]. rewrite A, R, toks_i_app. cbn [toks_i app]. cbn [toks_i app]. repeat rewrite <- app_assoc. cbn [app]. reflexivity.
+  - reflexivity.
+  - intros e E k. cbn [up_oe lay_oe]. apply E.
+  - intros t k. cbn [up_et lay_et]. apply (proj1 up_lay_term_all).
+  - intros a A k. cbn [up_et lay_et toks_i]. rewrite A, toks_i_app. cbn [toks_i app]. cbn [toks_i app]. repeat rewrite <- app_assoc. cbn [app]. reflexivity.
+Qed.
+
+(* ---------- what the printers print for a term is its token text ---------- *)
+Section PrintProofs.
+Variable sidx : bytes -> N.
+
+Definition date_ok (s : bytes) : bool :=
+  match parse_rfc3339 s with
+  | Some d => ((0 <=? d) && (d <? 253402300800))%Z && bytes_eqb (fmt_rfc3339 d) s
+  | None => false
+  end.
+Definition hex_ok (h : bytes) : bool :=
+  match hex_decode h with Some b => bytes_eqb (hex_encode b) h | None => false end.
+Definition str_ok (s : bytes) : bool :=
+  forallb (fun c => in_domain c && negb (c =? 34) && negb (c =? 92)) s && negb (has_prefix s lit_hex).
+Definition var_ok (v : bytes) : bool := negb (is_nil v) && forallb is_word v.
+(* the elements a printed set may have: no strings (printed as #index), no variables *)
+Definition printable_atom (t : gterm) : bool :=
+  match t with
+  | GInt z => ((0 <=? z) && (z <? 9223372036854775808))%Z
+  | GDate s => date_ok s
+  | GBytes h => hex_ok h
+  | GBool _ => true
+  | _ => false
+  end.
+Fixpoint gterms_list (xs : gterms) : list gterm :=
+  match xs with GNil => [] | GCons y ys => y :: gterms_list ys end.
+Definition elem_str (t : gterm) : bytes := src (term_tok t).
+Definition printable_term (t : gterm) : bool :=
+  match t with
+  | GStr s => str_ok s
+  | GVar v => var_ok v
+  | GParam _ => false
+  | GSet x xs =>
+      let el := x :: gterms_list xs in
+      forallb printable_atom el
+      && list_eqb bytes_eqb (sort_strings (List.map elem_str el)) (List.map elem_str el)
+  | _ => printable_atom t
+  end.
+
+Lemma list_eqb_eq (a b : list bytes) : list_eqb bytes_eqb a b = true -> a = b.
+Proof.
+  revert b; induction a as [|x a IH]; intros [|y b] H; try discriminate; [reflexivity|].
+  cbn in H. apply andb_true_iff in H as [H1 H2]. apply bytes_eqb_eq in H1. f_equal; [exact H1|apply IH; exact H2].
+Qed.
+
+Lemma to_int64_small d : (0 <= d < 9223372036854775808)%Z -> to_int64 (Z.to_N (d mod two64)) = d.
+Proof. intros H. unfold to_int64, two64. rewrite Z.mod_small by lia. rewrite Z2N.id by lia.
+  destruct (d <? 9223372036854775808)%Z eqn:E; [reflexivity|lia]. Qed.
+
+Lemma atom_print t :
+  printable_atom t = true ->
+  exists a, term_to_biscuit [] t = Ok (TA a) /\ atom_string sidx a = elem_str t /\
+            set_elem (TA a) = Ok a /\ print_term sidx (TA a) = elem_str t.
+Proof.
+  destruct t; cbn [printable_atom]; intros H; try discriminate.
+  - (* bytes *) unfold hex_ok in H. destruct (hex_decode hex) as [b|] eqn:E; [|discriminate].
+    apply bytes_eqb_eq in H. exists (ABytes b). cbn [term_to_biscuit]. rewrite E.
+    repeat split; cbn; rewrite H; reflexivity.
+  - (* date *) unfold date_ok in H. destruct (parse_rfc3339 s) as [d|] eqn:E; [|discriminate].
+    apply andb_true_iff in H as [H1 H2]. apply bytes_eqb_eq in H2.
+    apply andb_true_iff in H1 as [H0 H1]. apply Z.leb_le in H0. apply Z.ltb_lt in H1.
+    exists (ADate (Z.to_N (d mod two64))). cbn [term_to_biscuit]. rewrite E.
+    assert (Hs : fmt_rfc3339 (to_int64 (Z.to_N (d mod two64))) = s) by (rewrite to_int64_small by lia; exact H2).
+    split; [reflexivity|]. split; [exact Hs|]. split; [reflexivity|exact Hs].
+  - (* int *) exists (AInt z). repeat split.
+  - (* bool *) exists (ABool b). destruct b; repeat split.
+Qed.
+
+Lemma set_atoms_print : forall xs,
+  forallb printable_atom (gterms_list xs) = true ->
+  exists l, set_atoms [] xs = Ok l /\ List.map (atom_string sidx) l = List.map elem_str (gterms_list xs).
+Proof.
+  induction xs as [|y ys IH]; intros H.
+  - exists []. split; reflexivity.
+  - cbn [gterms_list forallb] in H. apply andb_true_iff in H as [Hy Hys].
+    destruct (atom_print y Hy) as (a & Ha & Hs & He & _). destruct (IH Hys) as (l & Hl & Hm).
+    exists (a :: l). cbn [set_atoms]. rewrite Ha. cbn [bind]. rewrite He. cbn [bind]. rewrite Hl. cbn [bind].
+    split; [reflexivity|]. cbn [List.map gterms_list]. rewrite Hs, Hm. reflexivity.
+Qed.
+
+Lemma join_cons2 sep x y l : join sep (x :: y :: l) = x ++ sep ++ join sep (y :: l).
+Proof. reflexivity. Qed.
+
+Lemma join_commas : forall xs,
+  forallb printable_atom (gterms_list xs) = true ->
+  forall x0, join S_comma_sp (x0 :: List.map elem_str (gterms_list xs)) = x0 ++ flat_i (lay_commas xs).
+Proof.
+  induction xs as [|y ys IH]; intros H x0.
+  - cbn. rewrite app_nil_r. reflexivity.
+  - cbn [gterms_list forallb] in H. apply andb_true_iff in H as [Hy Hys].
+    cbn [gterms_list List.map lay_commas flat_i]. rewrite join_cons2, (IH Hys).
+    assert (Hl : lay_term y = [IT (term_tok y)]) by (destruct y; try reflexivity; discriminate).
+    rewrite flat_i_app, Hl. cbn [flat_i]. unfold elem_str. rewrite app_nil_r. reflexivity.
+Qed.
+
+Lemma term_print t :
+  printable_term t = true ->
+  exists v, term_to_biscuit [] t = Ok v /\ print_term sidx v = flat_i (lay_term t).
+Proof.
+  destruct t; cbn [printable_term]; intros H; try discriminate.
+  - exists (TA (AVar name)). split; [reflexivity|]. cbn. rewrite app_nil_r. reflexivity.
+  - destruct (atom_print (GBytes hex) H) as (a & Ha & _ & _ & Hp). exists (TA a). split; [exact Ha|].
+    rewrite Hp. cbn. unfold elem_str. rewrite app_nil_r. reflexivity.
+  - exists (TA (AStr s)). split; [reflexivity|]. cbn. rewrite app_nil_r. reflexivity.
+  - destruct (atom_print (GDate s) H) as (a & Ha & _ & _ & Hp). exists (TA a). split; [exact Ha|].
+    rewrite Hp. cbn. unfold elem_str. rewrite app_nil_r. reflexivity.
+  - destruct (atom_print (GInt z) H) as (a & Ha & _ & _ & Hp). exists (TA a). split; [exact Ha|].
+    rewrite Hp. cbn. unfold elem_str. rewrite app_nil_r. reflexivity.
+  - destruct (atom_print (GBool b) H) as (a & Ha & _ & _ & Hp). exists (TA a). split; [exact Ha|].
+    rewrite Hp. cbn. unfold elem_str. rewrite app_nil_r. reflexivity.
+  - (* set *) apply andb_true_iff in H as [Hel Hsorted]. apply list_eqb_eq in Hsorted.
+    cbn [forallb] in Hel. apply andb_true_iff in Hel as [Hx Hxs].
+    destruct (atom_print t Hx) as (a & Ha & Hs & He & _).
+    destruct (set_atoms_print xs Hxs) as (l & Hl & Hm).
+    exists (TSet (a :: l)). cbn [term_to_biscuit]. rewrite Ha. cbn [bind]. rewrite He. cbn [bind]. rewrite Hl. cbn [bind].
+    split; [reflexivity|].
+    cbn [print_term term_string List.map]. rewrite Hs, Hm.
+    cbn [List.map] in Hsorted. rewrite Hsorted.
+    rewrite (join_commas xs Hxs).
+    assert (Hlt : lay_term t = [IT (term_tok t)]) by (destruct t; try reflexivity; discriminate).
+    cbn [lay_term flat_i]. rewrite !flat_i_app, Hlt. cbn [flat_i]. unfold elem_str.
+    rewrite !app_nil_r. cbn. rewrite <- !app_assoc. reflexivity.
+Qed.
+
+(* ---------- the format strings ---------- *)
+Definition bin_mid (b : binop) : bytes :=
+  match b with
+  | BLessThan => bs " < " | BLessOrEqual => bs " <= " | BGreaterThan => bs " > "
+  | BGreaterOrEqual => bs " >= " | BEqual => bs " == " | BContains => bs ".contains("
+  | BPrefix => bs ".starts_with(" | BSuffix => bs ".ends_with(" | BRegex => bs ".matches("
+  | BAdd => bs " + " | BSub => bs " - " | BMul => bs " * " | BDiv => bs " / "
+  | BAnd => bs " && " | BOr => bs " || " | BIntersection => bs ".intersection(" | BUnion => bs ".union("
+  end.
+Definition bin_end (b : binop) : bytes :=
+  match b with
+  | BContains | BPrefix | BSuffix | BRegex | BIntersection | BUnion => [41]
+  | _ => []
+  end.
+(* the generated format table prints [l op r] / [l.m(r)] *)
+Lemma print_binop_spec b l r : print_binop b l r = l ++ bin_mid b ++ r ++ bin_end b.
+Proof. destruct b; cbn; rewrite ?app_nil_r; reflexivity. Qed.
+Lemma print_unop_negate v : print_unop UNegate v = 33 :: v.
+Proof. cbn. rewrite app_nil_r. reflexivity. Qed.
+Lemma print_unop_parens v : print_unop UParens v = 40 :: v ++ [41].
+Proof. reflexivity. Qed.
+Lemma print_unop_length v : print_unop ULength v = v ++ bs ".length()".
+Proof. reflexivity. Qed.
+
+(* ---------- Expression.Print reconstructs the concrete syntax ---------- *)
+Definition cvt (o : gop) : op :=
+  match o with
+  | GVal t => OVal (match term_to_biscuit [] t with Ok v => v | _ => TA (ABool false) end)
+  | GUn u => OUn u
+  | GBin b => OBin b
+  end.
+
+Fixpoint pr_expression (e : Expression) : bool :=
+  match e with MkExpression l r => pr_e1 l && pr_o1 r end
+with pr_o1 (r : OpExpr1s) : bool :=
+  match r with O1Nil => true | O1Cons e r' => pr_e1 e && pr_o1 r' end
+with pr_e1 (e : Expr1) : bool :=
+  match e with MkExpr1 l r => pr_e2 l && pr_o2 r end
+with pr_o2 (r : OpExpr2s) : bool :=
+  match r with O2Nil => true | O2Cons e r' => pr_e2 e && pr_o2 r' end
+with pr_e2 (e : Expr2) : bool :=
+  match e with MkExpr2 l r => pr_e3 l && pr_o3 r end
+with pr_o3 (r : OpExpr3o) : bool :=
+  match r with O3None => true | O3Some o e => pr_e3 e end
+with pr_e3 (e : Expr3) : bool :=
+  match e with MkExpr3 l r => pr_e4 l && pr_o4 r end
+with pr_o4 (r : OpExpr4s) : bool :=
+  match r with O4Nil => true | O4Cons o e r' => pr_e4 e && pr_o4 r' end
+with pr_e4 (e : Expr4) : bool :=
+  match e with MkExpr4 l r => pr_e5 l && pr_o5 r end
+with pr_o5 (r : OpExpr5s) : bool :=
+  match r with O5Nil => true | O5Cons o e r' => pr_e5 e && pr_o5 r' end
+with pr_e5 (e : Expr5) : bool :=
+  match e with MkExpr5 neg e6 => pr_e6 e6 end
+with pr_e6 (e : Expr6) : bool :=
+  match e with MkExpr6 l r => pr_et l && pr_o7 r end
+with pr_o7 (r : OpExpr7s) : bool :=
+  match r with
+  | O7Nil => true
+  | O7Cons m a r' =>
+      (* x.length() without argument, every other method with one *)
+      match m, a with
+      | MLength, ENone => true
+      | MLength, ESome _ => false
+      | _, ENone => false
+      | _, ESome _ => pr_oe a
+      end && pr_o7 r'
+  end
+with pr_oe (a : OptExpression) : bool :=
+  match a with ENone => true | ESome e => pr_expression e end
+with pr_et (t : ExprTerm) : bool :=
+  match t with
+  | ETTerm t => printable_term t
+  | ETParen ENone => false            (* "()" emits nothing: it cannot be printed *)
+  | ETParen a => pr_oe a
+  end.
+
+Lemma step_val t rest st n :
+  n < 1000 -> print_ops sidx (OVal t :: rest) st n = print_ops sidx rest (print_term sidx t :: st) (n + 1).
+Proof.
+  intros H. cbn [print_ops]. change Generated.max_stack with 1000.
+  destruct (1000 <=? n) eqn:E; [apply N.leb_le in E; lia|reflexivity].
+Qed.
+Lemma step_un u rest v st n :
+  1 <= n <= 1000 -> print_ops sidx (OUn u :: rest) (v :: st) n = print_ops sidx rest (print_unop u v :: st) n.
+Proof.
+  intros H. cbn [print_ops]. change Generated.max_stack with 1000.
+  destruct (1000 <=? n - 1) eqn:E; [apply N.leb_le in E; lia|reflexivity].
+Qed.
+Lemma step_bin b rest r l st n :
+  2 <= n <= 1001 ->
+  print_ops sidx (OBin b :: rest) (r :: l :: st) n = print_ops sidx rest (print_binop b l r :: st) (n - 1).
+Proof.
+  intros H. cbn [print_ops]. change Generated.max_stack with 1000.
+  destruct (1000 <=? n - 2) eqn:E; [apply N.leb_le in E; lia|reflexivity].
+Qed.
+
+Notation olen l := (N.of_nat (List.length l)).
+
+(* one binary-operator iteration of a left-associative level *)
+Lemma fold_step (ops_e ops_r : list gop) (b : binop) (Se Sr acc : bytes) mid rest st n :
+  n + 1 + olen (ops_e ++ [GBin b] ++ ops_r) <= 1000 ->
+  bin_mid b = mid -> bin_end b = [] ->
+  (forall rest' st' n', n' + olen ops_e <= 1000 ->
+     print_ops sidx (List.map cvt ops_e ++ rest') st' n' = print_ops sidx rest' (Se :: st') (n' + 1)) ->
+  (forall acc' rest' st' n', n' + 1 + olen ops_r <= 1000 ->
+     print_ops sidx (List.map cvt ops_r ++ rest') (acc' :: st') (n' + 1)
+     = print_ops sidx rest' ((acc' ++ Sr) :: st') (n' + 1)) ->
+  print_ops sidx (List.map cvt (ops_e ++ [GBin b] ++ ops_r) ++ rest) (acc :: st) (n + 1)
+  = print_ops sidx rest ((acc ++ mid ++ Se ++ Sr) :: st) (n + 1).
+Proof.
+  intros Hn Hmid Hend He Hr. rewrite !app_length in Hn. cbn [List.length] in Hn.
+  rewrite !map_app. cbn [List.map cvt]. rewrite <- !app_assoc. cbn [app].
+  rewrite He by lia. rewrite step_bin by lia. rewrite print_binop_spec, Hmid, Hend, app_nil_r.
+  replace (n + 1 + 1 - 1) with (n + 1) by lia.
+  rewrite Hr by lia. rewrite <- !app_assoc. reflexivity.
+Qed.
+
+Definition PE (ops : list gop) (S : bytes) : Prop :=
+  (1 <= List.length ops)%nat /\
+  forall rest st n, n + olen ops <= 1000 ->
+    print_ops sidx (List.map cvt ops ++ rest) st n = print_ops sidx rest (S :: st) (n + 1).
+Definition PO (ops : list gop) (S : bytes) : Prop :=
+  forall acc rest st n, n + 1 + olen ops <= 1000 ->
+    print_ops sidx (List.map cvt ops ++ rest) (acc :: st) (n + 1) = print_ops sidx rest ((acc ++ S) :: st) (n + 1).
+
+Lemma PO_nil : PO [] [].
+Proof. intros acc rest st n _. cbn. rewrite app_nil_r. reflexivity. Qed.
+
+Lemma PE_app ops_l ops_r Sl Sr : PE ops_l Sl -> PO ops_r Sr -> PE (ops_l ++ ops_r) (Sl ++ Sr).
+Proof.
+  intros [Hl0 Hl] Hr. unfold PE, PO in *. split; [rewrite app_length; lia|].
+  intros rest st n Hn. rewrite app_length in Hn. rewrite map_app, <- app_assoc.
+  rewrite Hl by lia. apply Hr. lia.
+Qed.
+
+Lemma PO_cons ops_e ops_r b Se Sr mid :
+  bin_mid b = mid -> bin_end b = [] -> PE ops_e Se -> PO ops_r Sr ->
+  PO (ops_e ++ [GBin b] ++ ops_r) (mid ++ Se ++ Sr).
+Proof.
+  intros Hmid Hend [_ He] Hr acc rest st n Hn.
+  apply (fold_step ops_e ops_r b Se Sr acc mid rest st n Hn Hmid Hend He Hr).
+Qed.
+
+Lemma print_stack_all :
+  (forall e, pr_expression e = true -> PE (to_ops e) (flat_i (lay_expression e))) /\
+  (forall r, pr_o1 r = true -> PO (ops_o1 r) (flat_i (lay_o1 r))) /\
+  (forall e, pr_e1 e = true -> PE (ops_e1 e) (flat_i (lay_e1 e))) /\
+  (forall r, pr_o2 r = true -> PO (ops_o2 r) (flat_i (lay_o2 r))) /\
+  (forall e, pr_e2 e = true -> PE (ops_e2 e) (flat_i (lay_e2 e))) /\
+  (forall r, pr_o3 r = true -> PO (ops_o3 r) (flat_i (lay_o3 r))) /\
+  (forall e, pr_e3 e = true -> PE (ops_e3 e) (flat_i (lay_e3 e))) /\
+  (forall r, pr_o4 r = true -> PO (ops_o4 r) (flat_i (lay_o4 r))) /\
+  (forall e, pr_e4 e = true -> PE (ops_e4 e) (flat_i (lay_e4 e))) /\
+  (forall r, pr_o5 r = true -> PO (ops_o5 r) (flat_i (lay_o5 r))) /\
+  (forall e, pr_e5 e = true -> PE (ops_e5 e) (flat_i (lay_e5 e))) /\
+  (forall e, pr_e6 e = true -> PE (ops_e6 e) (flat_i (lay_e6 e))) /\
+  (forall r, pr_o7 r = true -> PO (ops_o7 r) (flat_i (lay_o7 r))) /\
+  (forall a, pr_oe a = true -> match a with ESome e => PE (to_ops e) (flat_i (lay_expression e)) | ENone => True end) /\
+  (forall t, pr_et t = true -> PE (ops_et t) (flat_i (lay_et t))).
+Proof.
+  apply expr_mutind.
+  - intros l L r R H. cbn [pr_expression] in H. apply andb_true_iff in H as [H1 H2].
+    cbn [to_ops lay_expression]. rewrite flat_i_app. apply PE_app; auto.
+  - intros _. apply PO_nil.
+  - intros e E r R H. cbn [pr_o1] in H. apply andb_true_iff in H as [H1 H2].
+    cbn [ops_o1 lay_o1 flat_i]. rewrite flat_i_app.
+    apply (PO_cons (ops_e1 e) (ops_o1 r) BOr _ _ (32 :: src t_oror ++ [32])); auto.
+  - intros l L r R H. cbn [pr_e1] in H. apply andb_true_iff in H as [H1 H2].
+    cbn [ops_e1 lay_e1]. rewrite flat_i_app. apply PE_app; auto.
+  - intros _. apply PO_nil.
+  - intros e E r R H. cbn [pr_o2] in H. apply andb_true_iff in H as [H1 H2].
+    cbn [ops_o2 lay_o2 flat_i]. rewrite flat_i_app.
+    apply (PO_cons (ops_e2 e) (ops_o2 r) BAnd _ _ (32 :: src t_andand ++ [32])); auto.
+  - intros l L r R H. cbn [pr_e2] in H. apply andb_true_iff in H as [H1 H2].
+    cbn [ops_e2 lay_e2]. rewrite flat_i_app. apply PE_app; auto.
+  - intros _. apply PO_nil.
+  - intros o e E H. cbn [pr_o3] in H. cbn [ops_o3 lay_o3 flat_i].
+    pose proof (PO_cons (ops_e3 e) [] (cmp_binop o) (flat_i (lay_e3 e)) [] (32 :: src (t_cmp o) ++ [32])) as HP.
+    rewrite !app_nil_r in HP. cbn [app] in HP.
+    replace (32 :: src (t_cmp o) ++ 32 :: flat_i (lay_e3 e)) with ((32 :: src (t_cmp o) ++ [32]) ++ flat_i (lay_e3 e))
+      by (cbn [app]; rewrite <- app_assoc; reflexivity).
+    apply HP; [destruct o; reflexivity|destruct o; reflexivity|apply E; exact H|apply PO_nil].
+  - intros l L r R H. cbn [pr_e3] in H. apply andb_true_iff in H as [H1 H2].
+    cbn [ops_e3 lay_e3]. rewrite flat_i_app. apply PE_app; auto.
+  - intros _. apply PO_nil.
+  - intros o e E r R H. cbn [pr_o4] in H. apply andb_true_iff in H as [H1 H2].
+    cbn [ops_o4 lay_o4 flat_i]. rewrite flat_i_app.
+    replace (32 :: src (t_add o) ++ 32 :: flat_i (lay_e4 e) ++ flat_i (lay_o4 r))
+      with ((32 :: src (t_add o) ++ [32]) ++ flat_i (lay_e4 e) ++ flat_i (lay_o4 r))
+      by (cbn [app]; rewrite <- app_assoc; reflexivity).
+    apply (PO_cons (ops_e4 e) (ops_o4 r) (add_binop o)); [destruct o; reflexivity|destruct o; reflexivity|auto|auto].
+  - intros l L r R H. cbn [pr_e4] in H. apply andb_true_iff in H as [H1 H2].
+    cbn [ops_e4 lay_e4]. rewrite flat_i_app. apply PE_app; auto.
+  - intros _. apply PO_nil.
+  - intros o e E r R H. cbn [pr_o5] in H. apply andb_true_iff in H as [H1 H2].
+    cbn [ops_o5 lay_o5 flat_i]. rewrite flat_i_app.
+    replace (32 :: src (t_mul o) ++ 32 :: flat_i (lay_e5 e) ++ flat_i (lay_o5 r))
+      with ((32 :: src (t_mul o) ++ [32]) ++ flat_i (lay_e5 e) ++ flat_i (lay_o5 r))
+      by (cbn [app]; rewrite <- app_assoc; reflexivity).
+    apply (PO_cons (ops_e5 e) (ops_o5 r) (mul_binop o)); [destruct o; reflexivity|destruct o; reflexivity|auto|auto].
+  - (* Expr5 *) intros neg e E H. cbn [pr_e5] in H. cbn [ops_e5 lay_e5]. specialize (E H). unfold PE in *.
+    destruct E as [E0 E]. destruct neg.
+    + split; [rewrite app_length; lia|]. intros rest st n Hn. rewrite app_length in Hn. cbn [List.length] in Hn.
+      rewrite map_app, <- app_assoc. cbn [List.map cvt app]. rewrite E by lia.
+      rewrite step_un by lia. rewrite print_unop_negate. reflexivity.
+    + rewrite app_nil_r. split; assumption.
+  - intros l L r R H. cbn [pr_e6] in H. apply andb_true_iff in H as [H1 H2].
+    cbn [ops_e6 lay_e6]. rewrite flat_i_app. apply PE_app; auto.
+  - intros _. apply PO_nil.
+  - (* O7Cons *) intros m a A r R H. cbn [pr_o7] in H. apply andb_true_iff in H as [H1 H2].
+    specialize (R H2). cbn [ops_o7 lay_o7 flat_i]. unfold PE, PO in *.
+    destruct a as [|e].
+    + (* no argument: only length *)
+      destruct m; try discriminate. cbn [ops_oe lay_oe app method_op].
+      intros acc rest st n Hn. cbn [List.length] in Hn. cbn [List.map cvt app].
+      rewrite step_un by lia. rewrite print_unop_length. rewrite R by lia.
+      rewrite <- !app_assoc. reflexivity.
+    + assert (Hm : m <> MLength) by (destruct m; try discriminate; intros X; discriminate X).
+      assert (He : pr_expression e = true) by (destruct m; try discriminate; exact H1).
+      specialize (A He). cbn [ops_oe lay_oe] in *. destruct A as [_ A].
+      intros acc rest st n Hn. rewrite !app_length in Hn. cbn [List.length] in Hn.
+      rewrite !map_app, <- !app_assoc. rewrite A by lia.
+      destruct m; try congruence; cbn [method_op List.map cvt app];
+        rewrite step_bin by lia; rewrite print_binop_spec;
+        replace (n + 1 + 1 - 1) with (n + 1) by lia;
+        rewrite R by lia; rewrite flat_i_app; cbn [flat_i bin_mid bin_end];
+        repeat rewrite <- app_assoc; reflexivity.
+  - intros _. exact I.
+  - intros e E H. cbn [pr_oe] in H. apply E. exact H.
+  - (* ETTerm *) intros t H. cbn [pr_et] in H. cbn [ops_et lay_et].
+    destruct (term_print t H) as (v & Hv & Hp). unfold PE. split; [cbn; lia|].
+    intros rest st n Hn. cbn [List.length] in Hn. cbn [List.map cvt app]. rewrite Hv.
+    rewrite step_val by lia. rewrite Hp. reflexivity.
+  - (* ETParen *) intros a A H. destruct a as [|e]; [discriminate|].
+    cbn [pr_et] in H. specialize (A H). cbn [ops_et lay_et lay_oe flat_i] in *. unfold PE in *.
+    destruct A as [_ A]. split; [rewrite app_length; cbn; lia|].
+    intros rest st n Hn. rewrite app_length in Hn. cbn [List.length] in Hn.
+    rewrite map_app, <- app_assoc. cbn [List.map cvt app]. rewrite A by lia.
+    rewrite step_un by lia. rewrite print_unop_parens. rewrite flat_i_app. reflexivity.
+Qed.
+
+(* the value leaves of a printable expression are printable terms *)
+Definition leaf_ok (o : gop) : Prop := match o with GVal t => printable_term t = true | _ => True end.
+
+Lemma leaves_all :
+  (forall e, pr_expression e = true -> Forall leaf_ok (to_ops e)) /\
+  (forall r, pr_o1 r = true -> Forall leaf_ok (ops_o1 r)) /\
+  (forall e, pr_e1 e = true -> Forall leaf_ok (ops_e1 e)) /\
+  (forall r, pr_o2 r = true -> Forall leaf_ok (ops_o2 r)) /\
+  (forall e, pr_e2 e = true -> Forall leaf_ok (ops_e2 e)) /\
+  (forall r, pr_o3 r = true -> Forall leaf_ok (ops_o3 r)) /\
+  (forall e, pr_e3 e = true -> Forall leaf_ok (ops_e3 e)) /\
+  (forall r, pr_o4 r = true -> Forall leaf_ok (ops_o4 r)) /\
+  (forall e, pr_e4 e = true -> Forall leaf_ok (ops_e4 e)) /\
+  (forall r, pr_o5 r = true -> Forall leaf_ok (ops_o5 r)) /\
+  (forall e, pr_e5 e = true -> Forall leaf_ok (ops_e5 e)) /\
+  (forall e, pr_e6 e = true -> Forall leaf_ok (ops_e6 e)) /\
+  (forall r, pr_o7 r = true -> Forall leaf_ok (ops_o7 r)) /\
+  (forall a, pr_oe a = true -> Forall leaf_ok (ops_oe a)) /\
+  (forall t, pr_et t = true -> Forall leaf_ok (ops_et t)).
+Proof.
+  assert (Hop : forall o, match o with GVal _ => False | _ => True end -> Forall leaf_ok [o]).
+  { intros o Ho. constructor; [destruct o; [contradiction|exact I|exact I]|constructor]. }
+  apply expr_mutind.
+  - intros l L r R H. cbn [pr_expression] in H. apply andb_true_iff in H as [H1 H2].
+    cbn [to_ops]. apply Forall_app; auto.
+  - intros _. constructor.
+  - intros e E r R H. cbn [pr_o1] in H. apply andb_true_iff in H as [H1 H2].
+    cbn [ops_o1]. repeat (apply Forall_app; split); auto; apply Hop; exact I.
+  - intros l L r R H. cbn [pr_e1] in H. apply andb_true_iff in H as [H1 H2].
+    cbn [ops_e1]. apply Forall_app; auto.
+  - intros _. constructor.
+  - intros e E r R H. cbn [pr_o2] in H. apply andb_true_iff in H as [H1 H2].
+    cbn [ops_o2]. repeat (apply Forall_app; split); auto; apply Hop; exact I.
+  - intros l L r R H. cbn [pr_e2] in H. apply andb_true_iff in H as [H1 H2].
+    cbn [ops_e2]. apply Forall_app; auto.
+  - intros _. constructor.
+  - intros o e E H. cbn [pr_o3] in H. cbn [ops_o3]. apply Forall_app; split; auto; apply Hop; exact I.
+  - intros l L r R H. cbn [pr_e3] in H. apply andb_true_iff in H as [H1 H2].
+    cbn [ops_e3]. apply Forall_app; auto.
+  - intros _. constructor.
+  - intros o e E r R H. cbn [pr_o4] in H. apply andb_true_iff in H as [H1 H2].
+    cbn [ops_o4]. repeat (apply Forall_app; split); auto; apply Hop; exact I.
+  - intros l L r R H. cbn [pr_e4] in H. apply andb_true_iff in H as [H1 H2].
+    cbn [ops_e4]. apply Forall_app; auto.
+  - intros _. constructor.
+  - intros o e E r R H. cbn [pr_o5] in H. apply andb_true_iff in H as [H1 H2].
+    cbn [ops_o5]. repeat (apply Forall_app; split); auto; apply Hop; exact I.
+  - intros neg e E H. cbn [pr_e5] in H. cbn [ops_e5]. apply Forall_app; split; auto.
+    destruct neg; [apply Hop; exact I|constructor].
+  - intros l L r R H. cbn [pr_e6] in H. apply andb_true_iff in H as [H1 H2].
+    cbn [ops_e6]. apply Forall_app; auto.
+  - intros _. constructor.
+  - intros m a A r R H. cbn [pr_o7] in H. apply andb_true_iff in H as [H1 H2].
+    assert (Ha : pr_oe a = true).
+    { destruct a as [|e]; [reflexivity|]. destruct m; try discriminate; exact H1. }
+    cbn [ops_o7]. apply Forall_app; split; [apply A; exact Ha|].
+    apply Forall_app; split; [apply Hop; destruct m; exact I|apply R; exact H2].
+  - intros _. constructor.
+  - intros e E H. cbn [pr_oe] in H. cbn [ops_oe]. auto.
+  - intros t H. cbn [pr_et] in H. cbn [ops_et]. constructor; [exact H|constructor].
+  - intros a A H. destruct a as [|e]; [discriminate|]. cbn [pr_et] in H. cbn [ops_et].
+    apply Forall_app; split; [apply A; exact H|apply Hop; exact I].
+Qed.
+
+Lemma conv_ops_cvt l : Forall leaf_ok l -> conv_ops [] l = Ok (List.map cvt l).
+Proof.
+  induction 1 as [|o l Ho Hl IH]; [reflexivity|].
+  cbn [conv_ops List.map]. rewrite IH. destruct o as [t|u|b]; cbn [cvt bind]; try reflexivity.
+  cbn [leaf_ok] in Ho. destruct (term_print t Ho) as (v & Hv & _). rewrite Hv. reflexivity.
+Qed.
+
+(* C15, expressions: Expression.Print of the parsed expression is its concrete syntax *)
+Theorem C15_print_expr e :
+  pr_expression e = true -> olen (to_ops e) <= 1000 ->
+  exists ops, expr_to_biscuit [] e = Ok ops /\ print_expr sidx ops = flat_i (lay_expression e).
+Proof.
+  intros Hp Hn. exists (List.map cvt (to_ops e)). split.
+  - unfold expr_to_biscuit. apply conv_ops_cvt. apply (proj1 leaves_all). exact Hp.
+  - unfold print_expr. destruct (proj1 print_stack_all e Hp) as [_ H].
+    specialize (H [] [] 0 ltac:(lia)). rewrite app_nil_r in H. rewrite H. reflexivity.
+Qed.
+
+(* ---------- predicates ---------- *)
+Definition lay_ids (ids : gterms) : list item :=
+  match ids with GNil => [] | GCons x xs => lay_term x ++ lay_commas xs end.
+Definition lay_pred (p : Predicate) : list item :=
+  IT (Tok KIdent (pr_name p)) :: IT t_lparen :: lay_ids (pr_ids p) ++ [IT t_rparen].
+
+Lemma up_lay_pred p k : up_pred p k = toks_i (lay_pred p) ++ k.
+Proof.
+  destruct p as [name ids]. unfold up_pred, lay_pred. cbn [pr_name pr_ids toks_i app]. f_equal. f_equal.
+  destruct ids as [|x xs]; cbn [up_ids lay_ids]; [reflexivity|].
+  rewrite (proj1 up_lay_term_all), (proj2 up_lay_term_all), !toks_i_app. cbn [toks_i].
+  repeat rewrite <- app_assoc. cbn [app]. reflexivity.
+Qed.
+
+Definition printable_pred (p : Predicate) : bool := forallb printable_term (gterms_list (pr_ids p)).
+
+Lemma terms_print : forall xs,
+  forallb printable_term (gterms_list xs) = true ->
+  exists ts, terms_to_biscuit [] xs = Ok ts /\
+             forall x0, join S_comma_sp (x0 :: List.map (print_term sidx) ts) = x0 ++ flat_i (lay_commas xs).
+Proof.
+  induction xs as [|y ys IH]; intros H.
+  - exists []. split; [reflexivity|]. intros x0. cbn. rewrite app_nil_r. reflexivity.
+  - cbn [gterms_list forallb] in H. apply andb_true_iff in H as [Hy Hys].
+    destruct (term_print y Hy) as (v & Hv & Hp). destruct (IH Hys) as (ts & Hts & Hj).
+    exists (v :: ts). cbn [terms_to_biscuit]. rewrite Hv. cbn [bind]. rewrite Hts. cbn [bind].
+    split; [reflexivity|]. intros x0. cbn [List.map]. rewrite join_cons2, Hj, Hp.
+    cbn [lay_commas flat_i]. rewrite flat_i_app. reflexivity.
+Qed.
+
+Lemma pred_print p :
+  printable_pred p = true ->
+  exists q, pred_to_biscuit [] p = Ok q /\ print_pred sidx q = flat_i (lay_pred p).
+Proof.
+  destruct p as [name ids]. unfold printable_pred, pred_to_biscuit, lay_pred. cbn [pr_name pr_ids]. intros H.
+  destruct ids as [|x xs].
+  - exists {| p_name := name; p_terms := [] |}. split; [reflexivity|].
+    unfold print_pred. cbn. rewrite ?app_nil_r. reflexivity.
+  - cbn [gterms_list forallb] in H. apply andb_true_iff in H as [Hx Hxs].
+    destruct (term_print x Hx) as (v & Hv & Hp). destruct (terms_print xs Hxs) as (ts & Hts & Hj).
+    exists {| p_name := name; p_terms := v :: ts |}. cbn [terms_to_biscuit]. rewrite Hv. cbn [bind]. rewrite Hts.
+    cbn [bind]. split; [reflexivity|].
+    unfold print_pred. cbn [p_name p_terms List.map]. rewrite Hj, Hp.
+    cbn [flat_i lay_ids]. rewrite !flat_i_app. cbn [flat_i]. cbn. rewrite ?app_nil_r. repeat rewrite <- app_assoc. reflexivity.
+Qed.
+
+(* ---------- joined lists ---------- *)
+Fixpoint lay_join (sep : list item) (ls : list (list item)) : list item :=
+  match ls with
+  | [] => []
+  | [x] => x
+  | x :: ls' => x ++ sep ++ lay_join sep ls'
+  end.
+Lemma lay_join_cons2 sep x y l : lay_join sep (x :: y :: l) = x ++ sep ++ lay_join sep (y :: l).
+Proof. reflexivity. Qed.
+
+Lemma flat_lay_join sep ls : flat_i (lay_join sep ls) = join (flat_i sep) (List.map flat_i ls).
+Proof.
+  induction ls as [|x [|y ls] IH]; [reflexivity|reflexivity|].
+  rewrite lay_join_cons2. cbn [List.map]. rewrite join_cons2, !flat_i_app, IH. reflexivity.
+Qed.
+
+Lemma toks_lay_join {A} (up : A -> list token -> list token) (lay : A -> list item)
+  (septok : token) (sep : list item) :
+  (forall y k, up y k = toks_i (lay y) ++ k) -> toks_i sep = [septok] ->
+  forall xs x k, up x (up_sep up septok xs k) = toks_i (lay_join sep (List.map lay (x :: xs))) ++ k.
+Proof.
+  intros Hup Hsep. induction xs as [|y ys IH]; intros x k.
+  - cbn [up_sep List.map lay_join]. apply Hup.
+  - cbn [up_sep List.map]. rewrite lay_join_cons2, !toks_i_app, Hsep, Hup. cbn [app].
+    rewrite (IH y k). cbn [List.map]. repeat rewrite <- app_assoc. reflexivity.
+Qed.
+
+Lemma join_app sep (a b : list bytes) :
+  join sep (a ++ b) = join sep a ++ (match a, b with _ :: _, _ :: _ => sep | _, _ => [] end) ++ join sep b.
+Proof.
+  induction a as [|x [|y a] IH].
+  - cbn. reflexivity.
+  - destruct b as [|z b]; [cbn; rewrite app_nil_r; reflexivity|]. cbn [app]. rewrite join_cons2. reflexivity.
+  - cbn [app] in *. rewrite join_cons2, IH, join_cons2. destruct b; repeat rewrite <- app_assoc; reflexivity.
+Qed.
+
+(* ---------- rule bodies ---------- *)
+Definition lay_re (x : RuleElement) : list item :=
+  match x with REPred p => lay_pred p | REExpr e => lay_expression e end.
+Lemma up_lay_re x k : up_re x k = toks_i (lay_re x) ++ k.
+Proof. destruct x as [p|e]; cbn [up_re lay_re]; [apply up_lay_pred|apply (proj1 up_lay_expr_all)]. Qed.
+
+Definition pr_re (x : RuleElement) : bool :=
+  match x with
+  | REPred p => printable_pred p
+  | REExpr e => pr_expression e && (olen (to_ops e) <=? 1000)
+  end.
+Definition is_expr (x : RuleElement) : bool := match x with REExpr _ => true | _ => false end.
+(* the order the printers use: predicates first, then expressions *)
+Fixpoint nf_elems (l : list RuleElement) : bool :=
+  match l with
+  | [] => true
+  | REPred _ :: l' => nf_elems l'
+  | REExpr _ :: l' => forallb is_expr l'
+  end.
+Definition str_re (x : RuleElement) : bytes := flat_i (lay_re x).
+
+Lemma exprs_nf l : forallb is_expr l = true -> nf_elems l = true.
+Proof. destruct l as [|[p|e] l]; cbn; intros H; try reflexivity; try discriminate. exact H. Qed.
+
+Lemma body_exprs_only : forall l, forallb is_expr l = true ->
+  forall qs os, body_to_biscuit [] l = Ok (qs, os) -> qs = [].
+Proof.
+  induction l as [|[p|e] l IH]; intros H qs os Hb.
+  - cbn in Hb. congruence.
+  - discriminate.
+  - cbn [forallb is_expr] in H. cbn [body_to_biscuit] in Hb.
+    destruct (expr_to_biscuit [] e) as [x| |]; cbn [bind] in Hb; try discriminate.
+    destruct (body_to_biscuit [] l) as [[qs' os']| |] eqn:E; cbn [bind fst snd] in Hb; try discriminate.
+    injection Hb as <- <-. apply (IH H qs' os' eq_refl).
+Qed.
+
+Lemma body_print : forall l, nf_elems l = true -> forallb pr_re l = true ->
+  exists qs os, body_to_biscuit [] l = Ok (qs, os) /\
+    List.map (print_pred sidx) qs ++ List.map (print_expr sidx) os = List.map str_re l.
+Proof.
+  induction l as [|[p|e] l IH]; intros Hnf Hpr.
+  - exists [], []. split; reflexivity.
+  - cbn [nf_elems] in Hnf. cbn [forallb pr_re] in Hpr. apply andb_true_iff in Hpr as [Hp Hl].
+    destruct (IH Hnf Hl) as (qs & os & Hb & Hs). destruct (pred_print p Hp) as (q & Hq & Hpq).
+    exists (q :: qs), os. cbn [body_to_biscuit]. rewrite Hq. cbn [bind]. rewrite Hb. cbn [bind fst snd].
+    split; [reflexivity|]. cbn [List.map app]. rewrite Hs, Hpq. reflexivity.
+  - cbn [nf_elems] in Hnf. cbn [forallb pr_re] in Hpr. apply andb_true_iff in Hpr as [He Hl].
+    apply andb_true_iff in He as [He Hn]. apply N.leb_le in Hn.
+    destruct (IH (exprs_nf l Hnf) Hl) as (qs & os & Hb & Hs).
+    pose proof (body_exprs_only l Hnf qs os Hb) as Hqs. subst qs.
+    destruct (C15_print_expr e He Hn) as (o & Ho & Hpo).
+    exists [], (o :: os). cbn [body_to_biscuit]. rewrite Ho. cbn [bind]. rewrite Hb. cbn [bind fst snd].
+    split; [reflexivity|]. cbn [List.map app] in *. rewrite Hs, Hpo. reflexivity.
+Qed.
+
+Notation comma_sep := [IT t_comma; sp].
+Definition lay_body (l : list RuleElement) : list item := lay_join comma_sep (List.map lay_re l).
+
+Lemma print_body_spec r :
+  print_body sidx r =
+  join S_comma_sp (List.map (print_pred sidx) (r_body r) ++ List.map (print_expr sidx) (r_exprs r)).
+Proof.
+  unfold print_body. rewrite join_app. destruct (r_body r), (r_exprs r); reflexivity.
+Qed.
+
+Lemma body_flat l qs os h :
+  List.map (print_pred sidx) qs ++ List.map (print_expr sidx) os = List.map str_re l ->
+  print_body sidx {| r_head := h; r_body := qs; r_exprs := os |} = flat_i (lay_body l).
+Proof.
+  intros H. rewrite print_body_spec. cbn [r_body r_exprs]. rewrite H.
+  unfold lay_body. rewrite flat_lay_join, map_map. reflexivity.
+Qed.
+
+Lemma up_lay_body x xs k :
+  up_re x (up_sep up_re t_comma xs k) = toks_i (lay_body (x :: xs)) ++ k.
+Proof. apply (toks_lay_join up_re lay_re t_comma comma_sep up_lay_re eq_refl). Qed.
+
+(* ---------- check queries and checks ---------- *)
+Definition lay_cq (q : CheckQuery) : list item := lay_body (cq_first q :: cq_more q).
+Definition pr_cq (q : CheckQuery) : bool :=
+  nf_elems (cq_first q :: cq_more q) && forallb pr_re (cq_first q :: cq_more q).
+
+Lemma up_lay_cq q k : up_cq q k = toks_i (lay_cq q) ++ k.
+Proof. unfold up_cq, lay_cq. apply up_lay_body. Qed.
+
+Lemma cq_print q :
+  pr_cq q = true ->
+  exists r, query_to_biscuit [] q = Ok r /\ print_check_query sidx r = flat_i (lay_cq q).
+Proof.
+  unfold pr_cq. intros H. apply andb_true_iff in H as [H1 H2].
+  destruct (body_print _ H1 H2) as (qs & os & Hb & Hs).
+  exists {| r_head := query_head; r_body := qs; r_exprs := os |}. unfold query_to_biscuit. rewrite Hb.
+  cbn [bind fst snd]. split; [reflexivity|]. unfold print_check_query, lay_cq. apply body_flat. exact Hs.
+Qed.
+
+Lemma queries_print : forall l, forallb pr_cq l = true ->
+  exists rs, queries_to_biscuit [] l = Ok rs /\
+             List.map (print_check_query sidx) rs = List.map (fun q => flat_i (lay_cq q)) l.
+Proof.
+  induction l as [|q l IH]; intros H.
+  - exists []. split; reflexivity.
+  - cbn [forallb] in H. apply andb_true_iff in H as [Hq Hl].
+    destruct (cq_print q Hq) as (r & Hr & Hp). destruct (IH Hl) as (rs & Hrs & Hm).
+    exists (r :: rs). cbn [queries_to_biscuit]. rewrite Hr. cbn [bind]. rewrite Hrs. cbn [bind].
+    split; [reflexivity|]. cbn [List.map]. rewrite Hp, Hm. reflexivity.
+Qed.
+
+Notation or_sep := [sp; IT t_or; sp].
+Definition lay_check (c : Check) : list item :=
+  IT t_check_if :: sp :: lay_join or_sep (List.map lay_cq (ck_first c :: ck_more c)).
+Definition pr_check (c : Check) : bool := forallb pr_cq (ck_first c :: ck_more c).
+
+Lemma up_lay_check c k : up_check c k = toks_i (lay_check c) ++ k.
+Proof.
+  unfold up_check, up_queries, lay_check. cbn [toks_i app]. f_equal.
+  apply (toks_lay_join up_cq lay_cq t_or or_sep up_lay_cq eq_refl).
+Qed.
+
+Lemma check_print c :
+  pr_check c = true ->
+  exists x, check_to_biscuit [] c = Ok x /\ print_check sidx x = flat_i (lay_check c).
+Proof.
+  unfold pr_check, check_to_biscuit. intros H. destruct (queries_print _ H) as (rs & Hrs & Hm).
+  exists rs. split; [exact Hrs|]. unfold print_check, lay_check. rewrite Hm.
+  cbn [flat_i]. rewrite flat_lay_join, map_map. reflexivity.
+Qed.
+
+(* ---------- block elements and blocks ---------- *)
+Notation arrow_sep := [sp; IT t_arrow; sp].
+Definition lay_be (e : BlockElement) : list item :=
+  match e with
+  | BECheck c => lay_check c
+  | BEPred p None => lay_pred p
+  | BEPred p (Some (x, xs)) => lay_pred p ++ arrow_sep ++ lay_body (x :: xs)
+  end.
+Definition pr_be (e : BlockElement) : bool :=
+  match e with
+  | BECheck c => pr_check c
+  | BEPred p None => printable_pred p
+  | BEPred p (Some (x, xs)) => printable_pred p && nf_elems (x :: xs) && forallb pr_re (x :: xs)
+  end.
+
+Lemma up_lay_be e k : up_be e k = toks_i (lay_be e) ++ k.
+Proof.
+  destruct e as [c|p [[x xs]|]]; cbn [up_be lay_be].
+  - apply up_lay_check.
+  - rewrite up_lay_pred, !toks_i_app. cbn [toks_i app]. rewrite up_lay_body.
+    repeat rewrite <- app_assoc. reflexivity.
+  - apply up_lay_pred.
+Qed.
+
+Definition be_class (e : BlockElement) : N :=
+  match e with BEPred _ None => 0 | BEPred _ (Some _) => 1 | BECheck _ => 2 end.
+(* the order Block.Code prints: facts, then rules, then checks *)
+Fixpoint sorted3 (l : list BlockElement) : bool :=
+  match l with
+  | [] => true
+  | e :: l' => forallb (fun e' => be_class e <=? be_class e') l' && sorted3 l'
+  end.
+Definition str_be (e : BlockElement) : bytes := flat_i (lay_be e).
+
+Lemma rule_print p x xs :
+  printable_pred p = true -> nf_elems (x :: xs) = true -> forallb pr_re (x :: xs) = true ->
+  exists r, rule_parts_to_biscuit [] p (x :: xs) = Ok r /\
+            print_rule sidx r = flat_i (lay_pred p ++ arrow_sep ++ lay_body (x :: xs)).
+Proof.
+  intros Hp Hnf Hpr. destruct (body_print _ Hnf Hpr) as (qs & os & Hb & Hs).
+  destruct (pred_print p Hp) as (q & Hq & Hpq).
+  exists {| r_head := q; r_body := qs; r_exprs := os |}. unfold rule_parts_to_biscuit.
+  rewrite Hb. cbn [bind]. rewrite Hq. cbn [bind fst snd]. split; [reflexivity|].
+  unfold print_rule. cbn [r_head]. rewrite (body_flat _ qs os q Hs), Hpq, !flat_i_app. reflexivity.
+Qed.
+
+Lemma forallb_weaken {A} (p q : A -> bool) l :
+  (forall a, p a = true -> q a = true) -> forallb p l = true -> forallb q l = true.
+Proof.
+  intros H. induction l as [|a l IH]; [reflexivity|]. cbn [forallb]. intros Hp.
+  apply andb_true_iff in Hp as [H1 H2]. rewrite (H a H1), (IH H2). reflexivity.
+Qed.
+
+Lemma block_print : forall l b0,
+  sorted3 l = true -> forallb pr_be l = true ->
+  exists fs rs cs,
+    block_elements_to_biscuit [] b0 l =
+      Ok {| b_facts := b_facts b0 ++ fs; b_rules := b_rules b0 ++ rs; b_checks := b_checks b0 ++ cs |} /\
+    List.map (print_pred sidx) fs ++ List.map (print_rule sidx) rs ++ List.map (print_check sidx) cs
+      = List.map str_be l /\
+    (forallb (fun e => 1 <=? be_class e) l = true -> fs = []) /\
+    (forallb (fun e => 2 <=? be_class e) l = true -> rs = []).
+Proof.
+  induction l as [|e l IH]; intros b0 Hs Hp.
+  - exists [], [], []. cbn [block_elements_to_biscuit]. rewrite !app_nil_r. destruct b0.
+    repeat split; reflexivity.
+  - cbn [sorted3] in Hs. apply andb_true_iff in Hs as [Hcls Hs]. cbn [forallb] in Hp.
+    apply andb_true_iff in Hp as [He Hl]. cbn [block_elements_to_biscuit].
+    destruct e as [c|p [[x xs]|]]; cbn [pr_be be_class] in *.
+    + (* check *) destruct (check_print c He) as (xc & Hc & Hpc).
+      cbn [block_element_to_biscuit]. rewrite Hc. cbn [bind].
+      destruct (IH (add_check b0 xc) Hs Hl) as (fs & rs & cs & Hb & Hstr & Hf & Hr).
+      assert (Hcls1 : forallb (fun e => 1 <=? be_class e) l = true).
+      { apply (forallb_weaken (fun e' => 2 <=? be_class e')); [|exact Hcls]. intros a Ha. lia. }
+      specialize (Hf Hcls1).
+      specialize (Hr Hcls). subst fs rs.
+      exists [], [], (xc :: cs). cbn [add_check b_facts b_rules b_checks] in Hb. rewrite Hb.
+      rewrite <- app_assoc. cbn [app]. split; [reflexivity|].
+      cbn [List.map app] in *. rewrite Hstr. unfold str_be at 2. cbn [lay_be]. rewrite Hpc.
+      split; [reflexivity|]. split; intros _; reflexivity.
+    + (* rule *) apply andb_true_iff in He as [He He3]. apply andb_true_iff in He as [He1 He2].
+      destruct (rule_print p x xs He1 He2 He3) as (r & Hrr & Hpr).
+      cbn [block_element_to_biscuit fst snd]. rewrite Hrr. cbn [bind].
+      destruct (IH (add_rule b0 r) Hs Hl) as (fs & rs & cs & Hb & Hstr & Hf & Hr).
+      specialize (Hf Hcls). subst fs.
+      exists [], (r :: rs), cs. cbn [add_rule b_facts b_rules b_checks] in Hb. rewrite Hb.
+      rewrite <- app_assoc. cbn [app]. split; [reflexivity|].
+      cbn [List.map app] in *. rewrite Hstr. unfold str_be at 2. cbn [lay_be]. rewrite Hpr.
+      split; [reflexivity|]. split; [intros _; reflexivity|]. intros Hx. cbn in Hx. discriminate Hx.
+    + (* fact *) destruct (pred_print p He) as (q & Hq & Hpq).
+      cbn [block_element_to_biscuit]. rewrite Hq. cbn [bind].
+      destruct (IH (add_fact b0 q) Hs Hl) as (fs & rs & cs & Hb & Hstr & Hf & Hr).
+      exists (q :: fs), rs, cs. cbn [add_fact b_facts b_rules b_checks] in Hb. rewrite Hb.
+      rewrite <- app_assoc. cbn [app]. split; [reflexivity|].
+      cbn [List.map app] in *. rewrite Hstr. unfold str_be at 2. cbn [lay_be]. rewrite Hpq.
+      split; [reflexivity|]. split; [intros Hx; cbn in Hx; discriminate Hx|].
+      intros Hx. cbn in Hx. discriminate Hx.
+Qed.
+
+Definition lay_block (B : Block) : list item :=
+  List.concat (List.map (fun e => lay_be e ++ [IT t_semi]) (bl_body B)).
+
+Lemma up_lay_semi l : up_semi up_be l [] = toks_i (List.concat (List.map (fun e => lay_be e ++ [IT t_semi]) l)).
+Proof.
+  induction l as [|e l IH]; [reflexivity|].
+  cbn [up_semi List.map List.concat]. rewrite up_lay_be, !toks_i_app, IH. cbn [toks_i].
+  repeat rewrite <- app_assoc. reflexivity.
+Qed.
+
+Lemma flat_lay_semi l :
+  flat_i (List.concat (List.map (fun e => lay_be e ++ [IT t_semi]) l))
+  = List.concat (List.map (fun s => s ++ S_semi) (List.map str_be l)).
+Proof.
+  induction l as [|e l IH]; [reflexivity|].
+  cbn [List.map List.concat]. rewrite !flat_i_app, IH. cbn [flat_i]. unfold str_be.
+  repeat rewrite <- app_assoc. reflexivity.
+Qed.
+
+(* parsing a text given as items *)
+Lemma parse_block_items B l ps :
+  wfb_block B = true -> toks_i l = up_block B -> lexable_i l = true ->
+  parse_block (flat_i l) ps = block_to_biscuit ps B.
+Proof.
+  intros Hwf Hmap Hlex. unfold parse_block. rewrite (lex_items l Hlex), Hmap. cbn [bind].
+  rewrite (run_ok parse_block_g (up_block B) B); [reflexivity|].
+  apply parse_unparse_block. apply fits_block_wf. exact Hwf.
+Qed.
+
+(* C15: the text printed for a block parses back to the block.
+   [B] is the block's content as a grammar tree in the printers' order (facts, rules,
+   checks; predicates before expressions); [pr_be] is the printable domain of the
+   property, [wfb_block] and [lexable_i] the side conditions of the parser and lexer
+   round trips, all three computable. *)
+Theorem C15_roundtrip : forall B b,
+  bl_comments B = [] -> sorted3 (bl_body B) = true -> forallb pr_be (bl_body B) = true ->
+  wfb_block B = true -> lexable_i (lay_block B) = true ->
+  block_to_biscuit [] B = Ok b ->
+  parse_block (reassemble (print_block sidx b)) [] = Ok b.
+Proof.
+  intros B b Hcs Hsorted Hpr Hwf Hlex Hb.
+  destruct (block_print (bl_body B) empty_block Hsorted Hpr) as (fs & rs & cs & Hconv & Hstr & _ & _).
+  unfold block_to_biscuit in Hb. rewrite Hconv in Hb. cbn [empty_block b_facts b_rules b_checks app] in Hb.
+  injection Hb as <-.
+  assert (Htext : reassemble (print_block sidx {| b_facts := fs; b_rules := rs; b_checks := cs |})
+                  = flat_i (lay_block B)).
+  { unfold reassemble, print_block, lay_block. cbn [pr_facts pr_rules pr_checks b_facts b_rules b_checks].
+    rewrite Hstr, flat_lay_semi. reflexivity. }
+  rewrite Htext. rewrite (parse_block_items B (lay_block B) [] Hwf).
+  - unfold block_to_biscuit. rewrite Hconv. reflexivity.
+  - unfold lay_block, up_block. rewrite Hcs. cbn [up_comments]. symmetry. apply up_lay_semi.
+  - exact Hlex.
+Qed.
+End PrintProofs.
+
+(* non-vacuity: a block with facts, rules with expressions of every level, and checks *)
+Definition ex_block_text : string :=
+  "right(""file1"", ""read"");owner(""alice"", hex:0aff, [1, 2, 3]);valid($f) <- resource($f), owner($u, $f), $u == ""alice"" || !$f.starts_with(""/tmp"") && 1 + 2 * 3 - 4 / 2 <= [1, 2].length();check if time($t), $t < 2030-01-01T00:00:00Z or admin(true), ($t + 1).contains([false]);".
+Definition ex_block : Block :=
+  match lex (bs ex_block_text) with
+  | Ok ts => match run parse_block_g ts with Ok b => b | _ => MkBlock [] [] end
+  | _ => MkBlock [] []
+  end.
+Example C15_roundtrip_nonvacuous :
+  bl_comments ex_block = [] /\ sorted3 (bl_body ex_block) = true /\ forallb pr_be (bl_body ex_block) = true /\
+  wfb_block ex_block = true /\ lexable_i (lay_block ex_block) = true /\
+  is_ok (block_to_biscuit [] ex_block) = true /\ List.length (bl_body ex_block) = 4%nat /\
+  flat_i (lay_block ex_block) = bs ex_block_text.
+Proof. vm_compute. repeat split. Qed.
